@@ -1,78 +1,5 @@
-import QuillModel.Extracted.Backend
-import QuillModel.Extracted.Queue
-import QuillModel.Props.C05
-import QuillModel.Props.C06
-import QuillModel.Props.C09Backend
-/-!
-Side-conditions of the ordering theorem (C05) and of the flush theorems (C06) for the facts extracted from the
-current headers (`BackendWorker.h`, `Logger.h`).
-
-C05: the context cache is refreshed after `ts_now` is sampled (the `Cfg` flag the theorem carries as an explicit
-hypothesis), and the structural facts the model of the pass hard-wires — a record newer than `ts_now` stays in its
-queue, the read loop is the do-while with the capacity / hard-limit exits, the minimum front is chosen with a
-strict comparison, both batch loops are guarded by the pending check.
-
-C06: the Flush branch of `_process_transit_event` flushes the active sinks unconditionally (interval 0) *before* it
-captures the flag; the flag is stored only after `pop_front`; every sink flush is wrapped in its own try/catch;
-`flush_log` retries a refused request in a loop, then waits on the flag; only `Event::Log` statements bump the
-failure counter. `flushOnlyValidLoggers = false` records that the flush also covers the sinks of loggers marked for removal and not erased yet (F12, repaired).
-
-C09 (end to end): `commit_read` publishes on drain (the `Params` extracted from `BoundedSPSCQueue.h`); on a blocking
-queue `log_statement` retries a refused reservation with the same size until it is granted and then writes
-(`blockingRetriesSameRequest`), with the timestamp taken before the first attempt.
--/
-namespace Obligations
-open Backend
-
-theorem backendB_extraction_ok : Extracted.backendFailures = [] := by decide
-
-/-- what `C05_statement_order` assumes of the code, as extracted -/
-theorem backendB_order_structure :
-    Extracted.refreshAfterSample = true ∧ Extracted.stopsOnFutureTimestamp = true ∧
-    Extracted.readLoopShape = true ∧ Extracted.strictMinimum = true ∧
-    Extracted.batchGuardInPoll = true ∧ Extracted.batchGuardInExit = true := by decide
-
-/-- C05 for the code as extracted: every configuration that carries the extracted refresh order -/
-theorem C05_extracted (s0 : BSt) (h0 : Start s0) (hg : s0.cfg.grace ≠ 0)
-    (hc : s0.cfg.refreshAfterSample = Extracted.refreshAfterSample) (ops : List Op)
-    (hp : GracePremise (runOps s0 ops)) :
-    (((runOps s0 ops).popLog.reverse.filter (fun st => st.kind = .log ∧ st.lvl ≠ 9)).map (·.ts)).Pairwise (· ≤ ·) :=
-  C05_statement_order s0 h0 hg (hc.trans backendB_order_structure.1) ops hp
-
-/-- what the C06 theorems (the shape of `processLowest` / `processEvent` / `flushSinks` / `enqFlow` in the model)
-    assume of the code, as extracted -/
-theorem backendB_flush_structure :
-    Extracted.flushBeforeFlag = true ∧ Extracted.flushIgnoresInterval = true ∧ Extracted.popBeforeFlag = true ∧
-    Extracted.perSinkFlushCatch = true ∧ Extracted.perEventCatch = true ∧ Extracted.flushRetries = true ∧
-    Extracted.flushWaitsOnFlag = true ∧ Extracted.countsOnlyLogEvents = true ∧
-    Extracted.flushOnlyValidLoggers = false := by decide
-
-/-- C06 (other threads) for the code as extracted -/
-theorem C06_extracted (s0 : BSt) (h0 : StartF s0) (hg : s0.cfg.grace ≠ 0)
-    (hc : s0.cfg.refreshAfterSample = Extracted.refreshAfterSample) (ops : List Op)
-    (hp : GracePremise (runOps s0 ops)) (i : Nat) (st : Stmt) (f : Nat)
-    (hst : st ∈ ((runOps s0 ops).th i).accepted) (hk : st.kind = .flush f) (hf : f ∈ (runOps s0 ops).flags)
-    (k : Nat) (r : Stmt) (hrk : r ∈ ((runOps s0 ops).th k).accepted)
-    (hlt : r.ts < st.ts) : r ∈ ((runOps s0 ops).th k).popped :=
-  C06_other_threads s0 h0 hg (hc.trans backendB_order_structure.1) ops hp i st f hst hk hf k r hrk hlt
-
-/-- what the end-to-end C09 theorems (the retry of `enqFlow`, the publication rule of the queue the model embeds)
-    assume of the code, as extracted -/
-theorem backendB_retry_structure :
-    Extracted.boundedParams.drainPublish = true ∧ Extracted.blockingRetriesSameRequest = true ∧
-    Extracted.timestampBeforeContext = true := by decide
-
-/-- C09 (a blocked log call resumes) for the code as extracted: every configuration that carries the extracted queue
-    parameters -/
-theorem C09_backend_extracted (s0 : BSt) (h0 : StartF s0) (hqp : s0.cfg.qp = Extracted.boundedParams) (pre : List Op)
-    (a : Nat) (x : Actor) (st : Stmt) (k : Nat) (hblk : s0.cfg.dropping = false)
-    (hx : (runOps s0 pre).actor a = some x) (hp : x.pend = .retry st k) (hsz : st.size ≤ s0.cfg.qcap)
-    (hrun : (runOps s0 pre).backendGone = false) (dt : Nat) (hdt : s0.cfg.grace ≤ dt)
-    (suffix : List Op) (hq : ∀ o ∈ suffix, quietOp o = true) (hn : PB.pendingCount (runOps s0 pre) ≤ pollCount suffix)
-    (hk : st.kind = .log) (hk0 : k = 0) :
-    (resume (runOps (runOps s0 pre) (.front (.tick dt) :: suffix)) a).2 = s!"id={st.id} ret=1 ev=1 bytes={st.size}" := by
-  have h := (C09_blocked_call_resumes s0 h0 pre a x st k (by rw [hqp]; exact backendB_retry_structure.1) hblk hx hp hsz
-    hrun dt hdt suffix hq hn).2.2 hk (Or.inl hk0)
-  rw [h.1, hk0]; exact C09_obs_ret1 st
-
-end Obligations
+import QuillModel.Obligations.BackendB_C05
+import QuillModel.Obligations.BackendB_C06
+import QuillModel.Obligations.BackendB_C09
+import QuillModel.Obligations.BackendB_Common
+/-! Umbrella of the per-property obligation modules of proof bundle B (`BackendB_<Cxx>.lean`). -/
